@@ -417,6 +417,7 @@ type FuncSpec struct {
 	PkgPath  string // package the spec file belongs to ("" for stdlib spec files = fully qualified keys)
 	Props    []string
 	Requires []*Clause
+	Needs    []*Clause // panic-freedom preconditions: proved by no-panic callers, otherwise assumed
 	Ensures  []*Clause
 	Asserts  []*Clause
 	Assigns  []AssignTarget
@@ -580,7 +581,7 @@ func (db *SpecDB) parseSpecText(text, file, pkgPath string) error {
 				return fail("props outside func")
 			}
 			cur.Props = append(cur.Props, strings.Fields(strings.ReplaceAll(rest, ",", " "))...)
-		case "requires", "ensures", "assert", "invariant", "decreases":
+		case "requires", "needs", "ensures", "assert", "invariant", "decreases":
 			if cur == nil {
 				return fail("%s outside func", kw)
 			}
@@ -591,6 +592,8 @@ func (db *SpecDB) parseSpecText(text, file, pkgPath string) error {
 			switch kw {
 			case "requires":
 				cur.Requires = append(cur.Requires, c)
+			case "needs":
+				cur.Needs = append(cur.Needs, c)
 			case "ensures":
 				cur.Ensures = append(cur.Ensures, c)
 			case "assert":
